@@ -104,8 +104,10 @@ theorem dlArrive_sws (d : DNode) (h : FsH) : (d.dlArrive h).n.sws = d.n.sws := b
   unfold DNode.dlArrive
   split
   · rfl
-  · simp only [apply_sws, swEff, List.map_id']
-    exact createFile_sws _ _ _
+  · simp only []
+    split
+    · rfl
+    · exact createFolder_sws _ _
 
 theorem dbRestore_sws (d : DNode) (pre : Bool) (dl : Option FsH) : (d.dbRestore pre dl).n.sws = d.n.sws := by
   unfold DNode.dbRestore
@@ -596,9 +598,13 @@ theorem StructOk.dbRestore {n : Node} {d : DNode} (pre : Bool) (dl : Option FsH)
     simp only []
     apply StructOk.dbReplace
     unfold DNode.dlArrive
+    have ho : FileOrigin (some hh) n (arrivedFile hh) := ⟨Or.inr rfl, Or.inr (Or.inr rfl)⟩
     split
     · exact h1
-    · exact (h1.createFile dlFolder dbFile).fileSet dlFolder dbFile
+    · simp only []
+      split
+      · exact h1.addFile dlFolder _ ho
+      · exact (h1.createFolder dlFolder).addFile dlFolder _ ho
 
 /-- **C14 dyn (files and folders, structural step).** After an install / uninstall / create / copy / database restore
 every folder shows the visible health of a folder of the same name that existed before, or is new and shows NONE; and
@@ -803,18 +809,11 @@ theorem dlArrive_other (d : DNode) (hh : FsH) (old : File) (h : d.n.liveFile? db
   unfold DNode.dlArrive
   split
   · exact h
-  · simp only []
-    have hc := createFile_other d dlFolder dbFile dbFolder dbFile old (by decide) h
-    have : (d.createFile dlFolder dbFile).n.apply (.fileSet dlFolder dbFile hh) =
-        (d.createFile dlFolder dbFile).n.mapFolders
-          (fun G => if G.name = dlFolder then G.mapFile dbFile (fun x => { x with actual := hh }) else G) := rfl
-    rw [this, liveFile?_mapFolders_other]
-    · exact hc
-    · intro G; split <;> exact ⟨rfl, rfl⟩
-    · intro G hG
-      split
-      · rename_i h2; rw [hG] at h2; exact absurd h2 (by decide)
-      · rfl
+  · simp only [Node.addFile]
+    split
+    · exact (mapLiveFolder_other _ dlFolder dbFolder _ _ (by decide) (by intro G; exact ⟨rfl, rfl⟩)).trans h
+    · exact (mapLiveFolder_other _ dlFolder dbFolder _ _ (by decide) (by intro G; exact ⟨rfl, rfl⟩)).trans
+        (createFolder_other d dlFolder dbFolder dbFile old (by decide) h)
 
 /-- **C14 (replaced file, whole restore).** `DatabaseService.restore_backup()` — whatever the network delivered, whether or not
 a leftover download was cleared first — never changes what the agent sees for a live `database/database.db`: the name shows
